@@ -102,7 +102,8 @@ class ISCSIDevice(metaclass=ExMETA):
             try:
                 cmd.sense = task.raw_sense
             except AttributeError:
-                pass
+                # no sense data for this failure: do not keep an earlier one
+                cmd.sense = None
             # Match recent addition to SCSIDevice
             if en_raw_sense:
                 cmd.raw_sense_data = cmd.sense
